@@ -180,6 +180,7 @@ type Exec struct {
 	sawMayPanic   bool
 	directRecover bool
 	dbAx          []dbAxiom
+	constArrs     map[string]*Term
 }
 
 type ifaceOrigin struct {
@@ -399,10 +400,13 @@ func (ex *Exec) strEqLit(a *Term, s string) *Term {
 
 // wfStr assumes well-formedness of a string value: len >= 0 and bytes in 0..255.
 func (ex *Exec) wfStr(s *Term) {
+	// bytes are constrained to 0..255 where they are read (byteRange)
 	ex.assume(Ge(SLen(s), IntLit(0)))
-	i := BV("i!b", SInt)
-	ex.assume(Forall([]BVar{{"i!b", SInt}},
-		And(Le(IntLit(0), Select(SArr(s), i)), Le(Select(SArr(s), i), IntLit(255)))))
+}
+
+// byteRange: a byte read from a string is in 0..255.
+func (ex *Exec) byteRange(b *Term) {
+	ex.assume(And(Le(IntLit(0), b), Le(b, IntLit(255))))
 }
 
 func (ex *Exec) freshVal(hint string, t types.Type) Val {
